@@ -636,6 +636,21 @@ func TestDefaultTime(t *testing.T) {
 		} else {
 			call = gen.NCall("default_time", subj, str(zone))
 		}
+		// an earlier default_time on another key of the same point: failing (its note stays whatever happens later) or succeeding
+		switch rapid.IntRange(0, 5).Draw(t, "earlier") {
+		case 0:
+			c.Fields["ts0"] = rapid.SampledFrom([]string{"not a time at all", "", "99/99/9999"}).Draw(t, "ts0bad")
+			prog = append([]*gen.Node{gen.NCall("default_time", id("ts0"))}, prog...)
+			evid.Label("default_time/after-a-failed-call")
+		case 1:
+			c.Fields["ts0"] = "2021-05-27 06:54:14"
+			prog = append([]*gen.Node{gen.NCall("default_time", id("ts0"), str("Mars/Olympus"))}, prog...)
+			evid.Label("default_time/after-a-failed-call")
+		case 2:
+			c.Fields["ts0"] = "2019-01-02 03:04:05"
+			prog = append([]*gen.Node{gen.NCall("default_time", id("ts0"), str("UTC"))}, prog...)
+			evid.Label("default_time/after-a-successful-call")
+		}
 		if sit == "variable@outer-block" {
 			// the variable lives in a block between the top level and the block of the call
 			prog = []*gen.Node{gen.NIf([]*gen.Node{gen.NBool(true)}, [][]*gen.Node{append(prog, gen.NIf([]*gen.Node{gen.NBool(true)}, [][]*gen.Node{{call}}, nil, false))}, nil, false)}
@@ -806,6 +821,41 @@ func TestSQLCover(t *testing.T) {
 			evid.Sample(map[string]any{"subject": sql, "reference_fields": fmt.Sprint(v.Model.Pt.Fields())})
 		}
 	})
+}
+
+// TestCollectionSubjects: a list or map used as the subject of an extraction builtin is seen as its JSON text - the
+// text add_key would store for it - also when its strings hold characters that encoders treat specially.
+func TestCollectionSubjects(t *testing.T) {
+	vals := []func() *gen.Node{
+		func() *gen.Node { return gen.NList(str("<b>7</b>"), str("x & y"), gen.NInt(3)) },
+		func() *gen.Node { return gen.NMap(str("k<"), str("v>"), str("amp"), str("a&b")) },
+		func() *gen.Node { return gen.NList(str("select * from t where a <> 3 and b = 'x'")) },
+		func() *gen.Node { return gen.NList(str("2021-05-27 06:54:14")) },
+		func() *gen.Node { return gen.NList(gen.NList(str("é\"q\"\\")), gen.NMap(str("n"), gen.NNil())) },
+		func() *gen.Node { return gen.NList() },
+	}
+	calls := []func() []*gen.Node{
+		func() []*gen.Node { return []*gen.Node{gen.NSet("ok", gen.NCall("grok", id("cv"), str("%{GREEDYDATA:all}"))), gen.NCall("probe", str("ok"), id("ok"))} },
+		func() []*gen.Node { return []*gen.Node{gen.NSet("ok", gen.NCall("grok", id("cv"), str("<b>%{INT:n:int}</b>"))), gen.NCall("probe", str("ok"), id("ok"))} },
+		func() []*gen.Node { return []*gen.Node{gen.NSet("ok", gen.NCall("grok", id("cv"), str("u003cb.u003e%{INT:n:int}"))), gen.NCall("probe", str("ok"), id("ok"))} },
+		func() []*gen.Node { return []*gen.Node{gen.NSet("ok", gen.NCall("grok", id("cv"), str("^\\\\[%{DATA:inner}\\\\]$"))), gen.NCall("probe", str("ok"), id("ok"))} },
+		func() []*gen.Node { return []*gen.Node{gen.NCall("sql_cover", id("cv"))} },
+		func() []*gen.Node { return []*gen.Node{gen.NCall("xml", id("cv"), str("/b"), id("out"))} },
+		func() []*gen.Node { return []*gen.Node{gen.NCall("default_time", id("cv"))} },
+		func() []*gen.Node { return []*gen.Node{gen.NCall("add_key", id("snap"), id("cv")), gen.NCall("set_tag", id("tg"), id("cv"))} },
+	}
+	n := 0
+	for vi, v := range vals {
+		for ci, mk := range calls {
+			prog := append([]*gen.Node{gen.NSet("cv", v())}, mk()...)
+			c := sem.NewCase(gen.FixAll(prog))
+			c.Fields = map[string]any{"keep": "k"}
+			c.Tags = map[string]string{}
+			judge(t, "collection-subject", c, fmt.Sprintf("collsubj/%d/%d", vi, ci), true, "collection-subject")
+			n++
+		}
+	}
+	evid.Exhaustive("collection value x extraction builtin", n)
 }
 
 func TestReplays(t *testing.T) {
